@@ -264,3 +264,28 @@ func TestC04StickinessWindows(t *testing.T) {
 	runProperty(t, "C04", "schedsim-stickiness-windows",
 		schedRuleCommon+"stickiness-focused profile: one queue with stickiness limit lists {[100,30],[30,100],[60,20],[20,20,20],[40]} s, invocation depth 1-3 over paths sharing their first component, equal priorities (so that exact ties are frequent), 2-4 workers, advances of 1ns-45s. Same reference-model oracle as schedsim-fair-order. Non-trivial: a decision in which the sticky invocation tied with a less recently served one, so that the per-level window (inside: sticky wins, expired: least recently served wins) decided; distinct by script hash", p)
 }
+
+// TestC06RetryAndRedelivery focuses on the interplay of the per-worker
+// redelivery limit with the retry on the largest size class: small and large
+// workers, learners that always ask for the retry, workers that frequently
+// re-request their task (idle Synchronize while executing) and failing
+// completions. Same oracles as the other scheduler checks.
+func TestC06RetryAndRedelivery(t *testing.T) {
+	ops := []string{
+		"execute", "execute",
+		"syncIdle", "syncIdle", "syncIdle", "syncAuto", "syncAuto",
+		"retryFail", "retryFail", "retryFail", "syncCompleted",
+		"advanceSmall", "cancelSync", "wait",
+	}
+	p := &profile{
+		name: "C06r", ops: ops, minSteps: 8, maxSteps: 50, instances: []string{""},
+		queues: func(rt *rapid.T) []queueSpec {
+			return []queueSpec{{Prefix: "", Platform: 0, Predeclared: true, SizeClasses: rapid.SampledFrom([][]uint32{{1, 4}, {1, 2, 8}}).Draw(rt, "sizeClasses"), MaxBG: 0}}
+		},
+		workers: [2]int{2, 4}, actions: [2]int{1, 3}, invDepth: [2]int{0, 1},
+		syncKinds: allSyncKinds, finalDrain: true, alwaysRetry: true, retryCounts: [2]int{1, 3},
+		nontrivial: func(l labels) bool { return l["retry_on_largest"] > 0 && l["reissue"] > 0 },
+	}
+	runProperty(t, "C06", "schedsim-retry-redelivery",
+		schedRuleCommon+"retry-focused profile: one predeclared queue with 2-3 size classes, 2-4 workers spread over them, every request's learner asks for a retry on the largest size class, redelivery limit 1-3, workers often ask again for the task they hold and often report failures. Same oracles (INTERNAL exactly when a worker asked retryCount+1 times for the task it currently holds without reporting it, counted per assignment; re-issues never exceed the limit; retry goes to the largest size class). Non-trivial: a retry on the largest size class and at least one re-issue in the same case; distinct by script hash", p)
+}
